@@ -20,9 +20,12 @@ Apply(c) ==
       [] c.op = "score" -> UpdateScore(c.a, c.d) /\ ret'.ok = c.ok
       [] c.op = "time"  -> UpdateTime(c.a) /\ ret'.ok = c.ok
       [] c.op = "get"   -> Get(c.min, c.max) /\ ret'.peers = SetOf(c.peers)
+      [] c.op = "save"  -> Save /\ c.ok
 
 LinCall == /\ fin = "run"
-           /\ \E i \in pending : Apply(Round(tr, rd)[i]) /\ pending' = pending \ {i}
+           \* a call issued by a caller after an earlier call of its own returned comes after that call
+           /\ \E i \in pending : /\ (Round(tr, rd)[i].after = 0 \/ Round(tr, rd)[i].after \notin pending)
+                                  /\ Apply(Round(tr, rd)[i]) /\ pending' = pending \ {i}
            /\ UNCHANGED <<tr, rd, fin>>
 
 NextRound == /\ fin = "run" /\ pending = {} /\ rd < Len(Traces[tr].rounds)
@@ -30,9 +33,14 @@ NextRound == /\ fin = "run" /\ pending = {} /\ rd < Len(Traces[tr].rounds)
              /\ UNCHANGED <<vars, tr, fin>>
 
 FinalBook == {[a |-> order[i], s |-> score[order[i]], t |-> touched[order[i]]] : i \in 1..Len(order)}
+\* what the storage holds is what the last Save of the chosen order wrote (Save calls ran concurrently with the
+\* other calls, on a storage whose writes take a while)
+StoredBook == {file[i] : i \in 1..Len(file)}
 Finish == /\ fin = "run" /\ pending = {} /\ rd = Len(Traces[tr].rounds)
-          /\ IF FinalBook = SetOf(Traces[tr].final) THEN PrintT(<<"LINOK", tr>>)
-             ELSE PrintT(<<"LINCOUNT", tr, ToJson([spec |-> FinalBook, got |-> Traces[tr].final])>>)
+          /\ IF FinalBook = SetOf(Traces[tr].final) /\ (~Traces[tr].saved \/ StoredBook = SetOf(Traces[tr].loaded))
+             THEN PrintT(<<"LINOK", tr>>)
+             ELSE PrintT(<<"LINCOUNT", tr, ToJson([spec |-> FinalBook, got |-> Traces[tr].final, stored |-> StoredBook,
+                                                   loaded |-> Traces[tr].loaded])>>)
           /\ fin' = "ok"
           /\ UNCHANGED <<vars, tr, rd, pending>>
 
